@@ -18,6 +18,7 @@ import collections
 import json
 import os
 import subprocess
+import threading
 import time
 
 import common
@@ -28,6 +29,15 @@ HERE = os.path.dirname(os.path.abspath(__file__))
 SCRATCH = os.path.join(common.BUILD, "c04")
 HEADER = ("From Coq Require Import List String ZArith.\nFrom PV Require Import Canon.Model.\n"
           "Import ListNotations.\nOpen Scope string_scope.\n")
+
+
+def violation_once(res, fingerprint, what, replay_obj):
+  """At most one report per fingerprint and three overall (known findings are always forwarded)."""
+  if fingerprint in res.known:
+    return res.violation(fingerprint, what, replay_obj)
+  if len(res.violations) >= 3 or any(v["fingerprint"] == fingerprint for v in res.violations):
+    return False
+  return res.violation(fingerprint, what, replay_obj)
 
 
 # =============================================================================================
@@ -121,7 +131,7 @@ def tables(res):
 
 def gen_unit(seed, i):
   r = common.rng(seed, "c04-unit", i)
-  g = U.Gen(r, tie=r.choice([0.05, 0.25, 0.5]), size=r.choice([0.3, 0.5, 1.0]))
+  g = U.Gen(r, tie=r.choice([0.05, 0.25, 0.5]), size=r.choice([0.2, 0.4, 0.8]))
   u = g.unit()
   if r.random() < 0.2:
     u = add_tie(r, u)
@@ -167,16 +177,16 @@ def canon_cases(res, seed, n, names):
     if U.prepr(U.proj(c, True)) != repr(c):
       res.obligation("correspondence:projection-repr", False, "prepr(proj(x)) != repr(x) for generated unit %d" % i)
     # ---- direct oracles on the implementation (independent of the model)
-    if sep and pc != pc2 and len(res.violations) < 3:
-      res.violation("canon-not-permutation-invariant",
+    if sep and pc != pc2:
+      violation_once(res, "canon-not-permutation-invariant",
                     "CanonicalOrderingVisitor gives different units for two deep permutations of one unit whose sort keys separate siblings",
                     {"kind": "canon", "seed": seed, "index": i, "canon": repr(c)[:3000], "canon_of_shuffled": repr(c2)[:3000]})
     again = canon_impl(c)
-    if U.proj(again) != pc and len(res.violations) < 3:
-      res.violation("canon-not-idempotent", "CanonicalOrderingVisitor is not idempotent on a generated unit",
+    if U.proj(again) != pc:
+      violation_once(res, "canon-not-idempotent", "CanonicalOrderingVisitor is not idempotent on a generated unit",
                     {"kind": "canon", "seed": seed, "index": i, "canon": repr(c)[:3000], "again": repr(again)[:3000]})
-    if other and len(res.violations) < 3:
-      res.violation("canon-output-not-sorted:" + other[0][0], "output of CanonicalOrderingVisitor: %s at %s" % (other[0][0], other[0][1]),
+    if other:
+      violation_once(res, "canon-output-not-sorted:" + other[0][0], "output of CanonicalOrderingVisitor: %s at %s" % (other[0][0], other[0][1]),
                     {"kind": "canon", "seed": seed, "index": i, "problem": list(other[0])})
     nontrivial = pu != pc or pu2 != pc2
     hist["changed-by-canon" if pu != pc else "already-canonical"] += 1
@@ -208,6 +218,20 @@ def canon_cases_v(cases):
   return HEADER + st.defs() + "\n" + "\n".join(defs) + "\nEval vm_compute in [" + ";\n".join(checks) + "].\n"
 
 
+def cleanup_cases(names, results):
+  """Case files are per-process (parallel checks must not clobber each other); keep only failing ones."""
+  d = os.path.join(common.BUILD, "cases")
+  for n in names:
+    ok = results.get(n, (False, ""))[0]
+    for ext in (".v", ".vo", ".vok", ".vos", ".glob"):
+      f = os.path.join(d, n + ext)
+      if os.path.exists(f) and (ok or ext != ".v"):
+        os.unlink(f)
+    aux = os.path.join(d, "." + n + ".aux")
+    if os.path.exists(aux):
+      os.unlink(aux)
+
+
 def parse_tuples(out):
   terms = common.parse_coq_eval(out)
   if not terms:
@@ -220,8 +244,9 @@ def parse_tuples(out):
 def run_canon_model(res, cases, label, per_file):
   files = []
   for i in range(0, len(cases), per_file):
-    files.append(("c04_%s_%d" % (label, i // per_file), canon_cases_v(cases[i:i + per_file]), cases[i:i + per_file]))
+    files.append(("c04_%d_%s_%d" % (os.getpid(), label, i // per_file), canon_cases_v(cases[i:i + per_file]), cases[i:i + per_file]))
   results = common.run_cases_parallel([(n, b) for n, b, _ in files])
+  cleanup_cases([n for n, _, _ in files], results)
   n_mis = n_hyp = n_run = 0
   first = ""
   for name, _, cs in files:
@@ -280,7 +305,7 @@ def pipeline_trees(res, seed, n_progs, names):
         continue
       units = [c for c in captured if isinstance(c[0], pytd.TypeDeclUnit)]
       small = [c for c in captured if not isinstance(c[0], pytd.TypeDeclUnit)]
-      for inp, outp in units[-1:] + small[:12]:
+      for inp, outp in units[-1:] + small[:3]:
         probs, _ = U.monitor(inp, outp, names)
         n_mon += 1
         mon_problems += [(i,) + p for p in probs]
@@ -291,8 +316,8 @@ def pipeline_trees(res, seed, n_progs, names):
         finally:
           pytd_utils.CanonicalOrdering = hooked
         pi, po, pi2, po2 = U.proj(inp), U.proj(outp), U.proj(inp2), U.proj(out2)
-        if not probs and po != po2 and len(res.violations) < 3:
-          res.violation("canon-not-permutation-invariant:pipeline-tree",
+        if not probs and po != po2:
+          violation_once(res, "canon-not-permutation-invariant:pipeline-tree",
                         "a tree emitted by the real pipeline canonicalises differently after a deep shuffle",
                         {"kind": "pipeline-tree", "program": src, "canon": repr(outp)[:3000], "canon_of_shuffled": repr(out2)[:3000]})
         cases.append({"name": "pipe%d" % i, "trees": [pi, po, pi2, po2], "sep": not probs, "perm_equal": po == po2})
@@ -370,8 +395,6 @@ def error_oracle(fields, out):
   if len(set(out)) != len(out) or any(i < 0 or i >= len(fields) for i in out):
     problems.append("not-a-sublist-of-the-log")
   strip = lambda t: t[len(MARKER):] if t else ""
-  rep = lambda f: (f["filename"] or None if not f["filename"] else f["filename"], f["line"], f["col"],
-                   f["methodname"] or None, f["message"], f["details"], f["name"])
   def posrep(f):
     # what _position() can distinguish
     if f["filename"]:
@@ -395,7 +418,6 @@ def error_oracle(fields, out):
   logged = {posrep(f) for f in fields}
   if logged != set(groups):
     problems.append("an-error-vanished-entirely")
-  del rep
   return sorted(set(problems))
 
 
@@ -432,8 +454,8 @@ def errors_correspondence(res, seed, n, per_file):
     fields = corpus[i] if i < len(corpus) else gen_error_fields(common.rng(seed, "c04-err", i))
     out = run_error_impl(fields)
     probs = error_oracle(fields, out)
-    if probs and len(res.violations) < 3:
-      res.violation("errors-report:" + probs[0],
+    if probs:
+      violation_once(res, "errors-report:" + probs[0],
                     "ErrorLog.unique_sorted_errors violates 'reported errors are unique and sorted by position': %s" % probs,
                     {"kind": "errors", "fields": fields, "reported_indices": out, "problems": probs})
     dropped = len(fields) - len(out)
@@ -454,9 +476,10 @@ def errors_correspondence(res, seed, n, per_file):
       if 3 <= len(fields) <= 5 and len(out) < len(fields):
         res.sample({"logged": [(f["filename"], f["line"], f["message"], f["traceback"]) for f in fields], "reported_indices": out})
         break
-  files = [("c04_err_%d" % (i // per_file), errors_v(cases[i:i + per_file]), cases[i:i + per_file])
+  files = [("c04_%d_err_%d" % (os.getpid(), i // per_file), errors_v(cases[i:i + per_file]), cases[i:i + per_file])
            for i in range(0, len(cases), per_file)]
   results = common.run_cases_parallel([(n_, b) for n_, b, _ in files])
+  cleanup_cases([n_ for n_, _, _ in files], results)
   n_mis = 0
   first = ""
   for name, _, cs in files:
@@ -479,17 +502,21 @@ def errors_correspondence(res, seed, n, per_file):
 # =============================================================================================
 # (3) the search: subprocess differential
 
+JOB_TIMEOUT_S = 2400
+
+
 def run_jobs(jobs, max_par):
   """jobs: list of dict(name, hashseed, job).  Returns {name: {prog_id: result}} and stderr tails."""
   os.makedirs(SCRATCH, exist_ok=True)
   pending = list(jobs)
   running = {}
+  started = {}
   out = {}
   errs = {}
   while pending or running:
     while pending and len(running) < max_par:
       j = pending.pop(0)
-      path = os.path.join(SCRATCH, "job_%s.json" % j["name"])
+      path = os.path.join(SCRATCH, "job_%d_%s.json" % (os.getpid(), j["name"]))
       jj = dict(j["job"])
       jj["scratch"] = SCRATCH
       with open(path, "w") as f:
@@ -497,6 +524,10 @@ def run_jobs(jobs, max_par):
       running[j["name"]] = subprocess.Popen([common.PY, os.path.join(HERE, "c04_runner.py"), path],
                                             env=common.impl_env(hashseed=j["hashseed"]), stdout=subprocess.PIPE,
                                             stderr=subprocess.PIPE, text=True)
+      started[j["name"]] = time.time()
+    for n, p in running.items():
+      if p.poll() is None and time.time() - started[n] > JOB_TIMEOUT_S:
+        p.kill()          # reported through the non-zero return code ("runner-processes-completed")
     done = [n for n, p in running.items() if p.poll() is not None]
     if not done:
       time.sleep(0.05)
@@ -511,6 +542,10 @@ def run_jobs(jobs, max_par):
           rs[d["id"]] = d
       out[n] = rs
       errs[n] = (p.returncode, se[-1500:])
+      try:
+        os.unlink(os.path.join(SCRATCH, "job_%d_%s.json" % (os.getpid(), n)))
+      except OSError:
+        pass
   return out, errs
 
 
@@ -526,9 +561,10 @@ def make_configs(r, progs, thorough):
       {"name": "seed2-reusedloader-reversed", "hashseed": 2, "job": {"loader": "reused", "order": rev, "warmup": warm[:1]}},
       {"name": "seed3-freshloader-shuffled-after3unrelated", "hashseed": 3, "job": {"loader": "fresh", "order": sh1, "warmup": warm}},
       {"name": "seed0-reusedloader-shuffled", "hashseed": 0, "job": {"loader": "reused", "order": sh2, "warmup": warm[:2]}},
+      {"name": "seed5-freshloader-reversed", "hashseed": 5, "job": {"loader": "fresh", "order": rev, "warmup": []}},
   ]
   if thorough:
-    for s in (4, 5, 6, 7, 11, 12345):
+    for s in (6, 7, 8, 11, 12345):
       o = list(ids); r.shuffle(o)
       cfgs.append({"name": "seed%d-%sloader-shuffled" % (s, "reused" if s % 2 else "fresh"), "hashseed": s,
                    "job": {"loader": "reused" if s % 2 else "fresh", "order": o, "warmup": warm[: s % 4]}})
@@ -536,7 +572,7 @@ def make_configs(r, progs, thorough):
     c["job"]["programs"] = progs
     c["job"]["full"] = False
   # fresh process per program (a subset in the quick tier)
-  singles = ids if thorough else ids[: max(4, len(ids) // 4)]
+  singles = ids[:60] if thorough else ids[: max(4, len(ids) // 4)]
   for s in ((4, 9) if thorough else (4,)):
     for pid in singles:
       cfgs.append({"name": "seed%d-freshprocess-%s" % (s, pid), "hashseed": s, "single": pid,
@@ -612,9 +648,22 @@ def e2e(res, seed, n_progs, thorough, max_par):
     progs.append({"id": "p%d" % i, "src": src})
     feats.update(fs)
   cfgs = make_configs(r, progs, thorough)
-  t0 = time.time()
-  out, errs = run_jobs(cfgs, max_par)
-  res.extra["e2e_wall_s"] = round(time.time() - t0, 1)
+  box = {}
+
+  def work():
+    t0 = time.time()
+    box["out"], box["errs"] = run_jobs(cfgs, max_par)
+    box["wall"] = round(time.time() - t0, 1)
+
+  th = threading.Thread(target=work, daemon=True)
+  th.start()
+  return lambda: e2e_finish(res, th, box, progs, cfgs, feats)
+
+
+def e2e_finish(res, th, box, progs, cfgs, feats):
+  th.join()
+  out, errs = box["out"], box["errs"]
+  res.extra["e2e_wall_s"] = box["wall"]
   res.extra["e2e_configurations"] = [describe(c) if "single" not in c else c["name"] for c in cfgs][:16]
   res.extra["program_features"] = dict(feats)
   crashed = [(n, e) for n, e in errs.items() if e[0] != 0]
@@ -659,14 +708,13 @@ def e2e(res, seed, n_progs, thorough, max_par):
       which = [k for k in ("status", "pyi", "errors", "pickle") if a.get(k) != b.get(k)]
       if which:
         n_diff += 1
-        if len(res.violations) < 3:
-          report_difference(res, p, ref, c, which)
+        report_difference(res, p, ref, c, which)
       distinct = True
     res.count(("prog", p["src"]) if distinct else None)
   for pid, cname, o in oracle_problems[:3]:
     p = next(x for x in progs if x["id"] == pid)
-    res.violation("errors-report:" + o.split(":")[0],
-                  "reported errors are not unique and sorted by position: %s" % o,
+    violation_once(res, "errors-report:" + o.split(":")[0],
+                   "reported errors are not unique and sorted by position: %s" % o,
                   {"kind": "e2e-oracle", "program": p["src"], "config": slim_job(byname[cname], pid), "problem": o})
   res.obligation("monitor:hypotheses-on-every-canonicalised-tree(e2e)", not mon_problems,
                  "%d problems; first: %s" % (len(mon_problems), json.dumps(mon_problems[:2])[:1500]))
@@ -684,10 +732,16 @@ def e2e(res, seed, n_progs, thorough, max_par):
 
 
 def report_difference(res, p, ref, c, which):
+  # the fingerprint names WHICH outputs differ and whether a hash seed alone suffices; decide that first
+  # (cheaply, from the configurations), shrink only if this fingerprint has not been reported yet
+  seed_differs = ref["hashseed"] != c["hashseed"]
+  coarse = "output-differs:%s" % "+".join(which)
+  if len(res.violations) >= 3 or any(v["fingerprint"].startswith(coarse + ":") for v in res.violations):
+    return
   ja, jb = slim_job(ref, p["id"]), slim_job(c, p["id"])
   src = p["src"]
   alone = False
-  if ref["hashseed"] != c["hashseed"]:
+  if seed_differs:
     src2, alone = shrink_program(src, ref["hashseed"], c["hashseed"], 20.0)
     if alone:
       src = src2
@@ -695,9 +749,9 @@ def report_difference(res, p, ref, c, which):
       ja = {"name": "fresh-process", "hashseed": ref["hashseed"], "job": {"loader": "fresh", "order": ["p"], "warmup": [], "programs": prog, "full": True}}
       jb = {"name": "fresh-process", "hashseed": c["hashseed"], "job": {"loader": "fresh", "order": ["p"], "warmup": [], "programs": prog, "full": True}}
   kind = "hashseed" if alone else "history-or-loader"
-  res.violation("output-differs:%s:%s" % ("+".join(w for w in which), kind),
-                "same source and options, different %s between configuration %s and %s" % ("/".join(which), ref["name"], c["name"]),
-                {"kind": "e2e", "program": src, "target": ja["job"]["order"][-1], "config_a": ja, "config_b": jb, "differs": which})
+  violation_once(res, "%s:%s" % (coarse, kind),
+                 "same source and options, different %s between configuration %s and %s" % ("/".join(which), ref["name"], c["name"]),
+                 {"kind": "e2e", "program": src, "target": ja["job"]["order"][-1], "config_a": ja, "config_b": jb, "differs": which})
 
 
 # =============================================================================================
@@ -728,26 +782,28 @@ def run(res):
   drift = tables(res)
   deep = thorough or drift
   names = set(pytd_visitors.CanonicalOrderingVisitor().visit_class_names)
+  # ---- (3) is started first: its subprocesses run while the Coq legs below are evaluated
+  finish_e2e = e2e(res, res.seed, 160 if thorough else 24, thorough, 10 if thorough else 6)
   t0 = time.time()
   # ---- (2a)
-  cases = canon_cases(res, res.seed, 1200 if thorough else (400 if deep else 120), names)
+  cases = canon_cases(res, res.seed, 1200 if thorough else (400 if deep else 60), names)
   n_trees = run_canon_model(res, cases, "generated", 30)
   res.extra["canon_cases"] = len(cases)
   res.extra["canon_wall_s"] = round(time.time() - t0, 1)
   # ---- (2b)
   t0 = time.time()
-  pcases = pipeline_trees(res, res.seed, 40 if thorough else 5, names)
+  pcases = pipeline_trees(res, res.seed, 40 if thorough else 2, names)
   if pcases:
     n_trees += run_canon_model(res, pcases, "pipeline", 12)
   res.extra["pipeline_trees_through_model"] = len(pcases)
   res.extra["pipeline_wall_s"] = round(time.time() - t0, 1)
   # ---- (2c)
   t0 = time.time()
-  n_err = errors_correspondence(res, res.seed, 6000 if thorough else (2000 if deep else 600), 300)
+  n_err = errors_correspondence(res, res.seed, 6000 if thorough else (2000 if deep else 240), 120)
   res.extra["error_logs"] = n_err
   res.extra["errors_wall_s"] = round(time.time() - t0, 1)
   # ---- (3)
-  e2e(res, res.seed, 160 if thorough else 24, thorough, 10 if thorough else 6)
+  finish_e2e()
   res.trusted_base += ["harness/props/c04_units.py (projection pytd -> model value, table translator), c04_runner.py, c04_progs.py",
                        "out-of-tree g++ build of /repo/pytype/typegraph/*.cc (harness/common.py build_cfg)"]
   if thorough:
